@@ -375,9 +375,42 @@ fn close_case(rng: &mut Rng, idx: u64, rec: &mut Rec) {
 
 /// Responses that have no body although they carry a Content-Length (HEAD, 204, 304, 1xx): not one
 /// byte of what follows on the connection may be taken as body.
+/// A Content-Length that does not fit 64 bits is not a length the reader can count down: either the head is refused,
+/// or the body is still outstanding after everything that was offered - never complete after a handful of bytes.
+fn overflowing_length_case(idx: u64, rec: &mut Rec) {
+    let value = ["18446744073709551616", "18446744073709551621", "99999999999999999999", "184467440737095516150", "340282366920938463463374607431768211461"][(idx % 5) as usize];
+    let (method, status) = [("GET", 200u16), ("POST", 404), ("GET", 302)][(idx / 5 % 3) as usize];
+    let head = format!("HTTP/1.1 {} X\r\n{}Content-Length: {}\r\n\r\n", status, if status == 302 { "Location: /n\r\n" } else { "" }, value);
+    let mut f = super::c05::recv_flow(method);
+    rec.call();
+    match f.try_response(head.as_bytes()) {
+        Err(_) => rec.cov("overflowing-length/refused"),
+        Ok((_, None)) => rec.fail("C08/overflowing-length", format!("Content-Length {}: the complete head is neither accepted nor refused", value)),
+        Ok((_, Some(_))) => match f.proceed() {
+            Some(RecvResponseResult::RecvBody(mut b)) => {
+                let data = payload(300, 7);
+                let mut out = vec![0u8; 1024];
+                let mut used = 0;
+                for _ in 0..4 {
+                    match b.read(&data[used..], &mut out) {
+                        Ok((c, _)) => used += c,
+                        Err(_) => break,
+                    }
+                }
+                if b.can_proceed() {
+                    return rec.fail("C08/overflowing-length", format!("Content-Length {} (more than 64 bits hold): the body is reported complete after {} bytes", value, used));
+                }
+                rec.cov("overflowing-length/still-outstanding");
+            }
+            _ => rec.fail("C08/overflowing-length", format!("Content-Length {}: accepted, and no body is expected at all", value)),
+        },
+    }
+}
+
 fn bodyless_case(idx: u64, rec: &mut Rec) {
-    let (method, status) = [("HEAD", 200u16), ("GET", 204), ("GET", 304), ("POST", 304), ("HEAD", 301), ("GET", 199), ("DELETE", 204), ("HEAD", 404)][(idx % 8) as usize];
-    let n = [1u64, 5, 70_000, u64::MAX][(idx / 8 % 4) as usize];
+    // (a tunnel that was granted - 2xx to CONNECT - has no body either: what follows the head is tunnel data)
+    let (method, status) = [("HEAD", 200u16), ("GET", 204), ("GET", 304), ("POST", 304), ("HEAD", 301), ("GET", 199), ("DELETE", 204), ("HEAD", 404), ("CONNECT", 200), ("CONNECT", 204)][(idx % 10) as usize];
+    let n = [1u64, 5, 70_000, u64::MAX][(idx / 10 % 4) as usize];
     let head = format!("HTTP/1.1 {} X\r\nContent-Length: {}\r\n{}\r\n", status, n, if status == 301 { "Location: /n\r\n" } else { "" });
     let mut stream = head.clone().into_bytes();
     stream.extend_from_slice(NEXT);
@@ -415,7 +448,8 @@ impl Property for P {
         vec![
             Workload::new("length", tier.pick(20_000, 2_500_000), false, "Content-Length bodies"),
             Workload::new("close", tier.pick(8_000, 1_200_000), false, "close-delimited bodies"),
-            Workload::new("bodyless-with-length", 32, true, "HEAD / 204 / 304 / 1xx carrying a Content-Length, followed by a next response"),
+            Workload::new("overflowing-length", 15, true, "5 Content-Length values above u64::MAX x 3 (method, status) pairs: refused, or never complete after a few bytes"),
+            Workload::new("bodyless-with-length", 40, true, "HEAD / 204 / 304 / 1xx carrying a Content-Length, followed by a next response"),
         ]
     }
     fn run_case(&self, wl: &str, idx: u64, seed: u64, rec: &mut Rec) {
@@ -424,6 +458,8 @@ impl Property for P {
             length_case(&mut rng, idx, rec)
         } else if wl == "bodyless-with-length" {
             bodyless_case(idx, rec)
+        } else if wl == "overflowing-length" {
+            overflowing_length_case(idx, rec)
         } else {
             close_case(&mut rng, idx, rec)
         }
